@@ -253,13 +253,18 @@ def run_c09(case):
                 stats["twin_checks"] = stats.get("twin_checks", 0) + 1
                 if not torch.allclose(y1, y2, rtol=1e-4, atol=1e-5):
                     out.append(viol("C09", "twin", "fast-path-output-differs", "", max_abs=float((y1 - y2).abs().max())))
-                elif layout != "shared" and not torch.allclose(a1.sum(0), a2.sum(0), rtol=1e-3, atol=1e-4):
-                    out.append(viol("C09", "twin", "fast-path-first-derivative-differs", "", max_abs=float((a1.sum(0) - a2.sum(0)).abs().max())))
+                elif layout != "shared" and not torch.allclose(a1, a2, rtol=1e-3, atol=1e-4):
+                    # per-function layout: the derivative w.r.t. the copy that belongs to function i is function i's
+                    out.append(viol("C09", "twin", "fast-path-first-derivative-differs", "per-function",
+                                    max_abs=float((a1 - a2).abs().max())))
+                elif layout != "shared" and not torch.allclose(b1, b2, rtol=1e-3, atol=1e-4):
+                    out.append(viol("C09", "twin", "fast-path-second-derivative-differs", "per-function",
+                                    max_abs=float((b1 - b2).abs().max())))
                 elif layout == "shared" and not torch.allclose(a1, a2, rtol=1e-3, atol=1e-4):
                     out.append(viol("C09", "twin", "fast-path-first-derivative-differs", "", max_abs=float((a1 - a2).abs().max())))
                 elif layout == "shared" and not torch.allclose(b1, b2, rtol=1e-3, atol=1e-4):
                     out.append(viol("C09", "twin", "fast-path-second-derivative-differs", "", max_abs=float((b1 - b2).abs().max())))
-                elif layout == "shared":
+                else:
                     for q1, q2 in zip(p1, p2):
                         # norm-wise: the loss is built from squared second derivatives, single entries cancel
                         if (q1 is None) != (q2 is None) or (q1 is not None and
